@@ -172,8 +172,9 @@ def explore(ctx, prop, r, kindsA=None, kindsB=None, points="all", b_modes=("comp
                     if not pkA.parked:
                         pkA.wait(5); pkA = None
                         continue
+                    atA = (strace.summarize(pkA.steps_at_park) or ["-"])[-1]
                     step = {"A": argvA, "A_stdin": (stdinA or b"").decode("utf-8", "replace")[:200], "B": argvB, "B_stdin": (stdinB or b"").decode("utf-8", "replace")[:200],
-                            "schedule": "A parked after call %d/%d (%s); B %s; A resumes%s" % (k, len(pts), strace.summarize(stepsA[:k])[-1:], "runs to completion" if mode == "complete" else "takes the lock and is parked",
+                            "schedule": "A parked after call %d/%d (%s); B %s; A resumes%s" % (k, len(pts), strace.summarize(pkA.steps_at_park)[-1:], "runs to completion" if mode == "complete" else "takes the lock and is parked",
                                                                                                     "" if mode == "complete" else "; B resumes"),
                             "A_program": prog}
                     if mode == "complete":
@@ -186,7 +187,7 @@ def explore(ctx, prop, r, kindsA=None, kindsB=None, points="all", b_modes=("comp
                         ra = pkA.resume(); pkA = None
                         rb = pkB.resume() if pkB.parked else pkB.wait(10)
                         pkB = None
-                    ctx.count(1, key=(labA, labB, strace.summarize(stepsA[:k])[-1], mode))
+                    ctx.count(1, key=(labA, labB, atA, mode))
                     if judge(ctx, prop, base, c, cmds, [ra, rb], trace, step):
                         return
                 finally:
